@@ -4,7 +4,7 @@ import json, sys, os
 name, prop, needs, source = sys.argv[1:5]
 results = sys.argv[5:]
 d = dict(breaks_property=prop, what_it_needs_to_manifest=needs, source=source,
-         confirmed=["demo exits 1 with the patch and 0 without it (run in a scratch worktree)", "patch applies to /repo HEAD; existing unit tests pass with it (sub-agent ran tests/unit; see its report)"],
+         confirmed=["demo exits 1 with the patch and 0 without it (run in a scratch worktree)", "patch applies to /repo HEAD; existing unit tests pass with it (sub-agent ran tests/unit; see its report)"] + ([open(f"/tmp/wt/_tests_{os.environ['SEED_WT']}.txt").read().strip() + " (tests/unit re-run by us in the scratch worktree with the patch applied, the three always-failing tests deselected)"] if os.environ.get("SEED_WT") and os.path.exists(f"/tmp/wt/_tests_{os.environ['SEED_WT']}.txt") else []),
          checks_run=[r for r in results], caught_by=[r.split(":")[0] for r in results if r.endswith("rc=1")],
          missed_by=[r.split(":")[0] for r in results if r.endswith("rc=0")])
 json.dump(d, open(f"/verif/seeded/{name}/meta.json", "w"), indent=1)
